@@ -94,7 +94,120 @@ def units(tier):
     bc = big_configs()
     u += [{"kind": "big", "configs": bc[i:i + 4], "tier": tier}
           for i in range(0, len(bc), 4)]
+    u += [{"kind": "huge-grid", "grid": list(g), "tier": tier}
+          for g in HUGE_GRIDS]
     return u
+
+
+# grids of 2^33 .. 2^63 chunks: identifiers beyond 2^32 and 2^53
+# (log2 chunks per axis, (minishard, shard, preshift) bits)
+HUGE_GRIDS = [(18, (1, 53, 0)), (18, (0, 54, 0)), (18, (2, 50, 2)),
+              (18, (4, 50, 0)), (21, (1, 62, 0)), (11, (1, 32, 0)),
+              (11, (3, 28, 2)), (16, (1, 47, 0)), (19, (3, 40, 12))]
+
+
+def _eval_huge_grid(col, logn, triple, strategy, order, replaying=False):
+    """a handful of chunks whose identifiers have the top bits set, stored
+    in the given order and fetched back (plus probes of chunks that were
+    never stored) with the package's own reader"""
+    import json
+    import os
+
+    from mc.env import sandbox
+    from neuroglancer_scripts import accessor, sharded_file_accessor
+    n = 1 << logn
+    mb, sb, pb = triple
+    sharding = {"@type": "neuroglancer_uint64_sharded_v1",
+                "hash": "identity", "minishard_bits": mb, "shard_bits": sb,
+                "preshift_bits": pb, "minishard_index_encoding": "raw",
+                "data_encoding": "raw"}
+    info = {"type": "image", "data_type": "uint8", "num_channels": 1,
+            "scales": [{"key": se.KEY, "size": [n, n, n],
+                        "chunk_sizes": [[1, 1, 1]], "resolution": [1, 1, 1],
+                        "voxel_offset": [0, 0, 0], "encoding": "raw",
+                        "sharding": sharding}]}
+    pos = [(n - 1, n - 1, n - 1), (n - 1, 0, 0), (1, n - 1, 0),
+           (n // 2 + 1, 1, n - 1), (1, 0, n // 2), (0, 0, 0), (1, 1, 1),
+           (n - 1, n - 1, n - 2), (n - 2, n - 1, n - 1)]
+    absent = [(n - 2, n - 2, n - 2), (2, 2, 2), (n - 1, 1, 0)]
+    case = {"kind": "huge-grid", "log2_chunks_per_axis": logn,
+            "triple": list(triple), "strategy": strategy,
+            "order": list(order)}
+
+    def box(p3):
+        x, y, z = p3
+        return (x, x + 1, y, y + 1, z, z + 1)
+
+    d = sandbox.fresh_dir("c05h")
+    ok = True
+    try:
+        with open(os.path.join(d, "info"), "w") as f:
+            json.dump(info, f)
+        sandbox.install_atexit_capture()
+        try:
+            if strategy == "on disk":
+                acc = accessor.get_accessor_for_url(d)
+            else:
+                acc = sharded_file_accessor.ShardedFileAccessor(
+                    d, strategy="in memory")
+            for k in order:
+                acc.store_chunk(bytes([k + 1]) * (k + 1), se.KEY,
+                                box(pos[k]))
+            with sandbox.quiet():
+                acc.close()
+        except Exception as exc:
+            col.ev(1, 1, "huge-grid-bad")
+            col.violation("C05/huge-grid/store-or-close-failed/"
+                          + type(exc).__name__, case, "stored",
+                          repr(exc)[:200])
+            return
+        finally:
+            sandbox.drop_captured_exit_handlers()
+        rd = accessor.get_accessor_for_url(d)
+        sandbox.drop_captured_exit_handlers()
+        # absent probes are interleaved with the fetches of stored chunks
+        for k in list(order) + sorted(order):
+            for p3 in absent[:1 + k % 3]:
+                try:
+                    got = rd.fetch_chunk(se.KEY, box(p3))
+                    if got:
+                        ok = False
+                        col.violation(
+                            "C05/huge-grid/never-stored-chunk-has-data",
+                            dict(case, position=list(p3)), "absent",
+                            bytes(got).hex()[:40])
+                except Exception:
+                    pass
+            want = bytes([k + 1]) * (k + 1)
+            try:
+                got = rd.fetch_chunk(se.KEY, box(pos[k]))
+            except Exception as exc:
+                ok = False
+                col.violation("C05/huge-grid/fetch-failed/"
+                              + type(exc).__name__,
+                              dict(case, position=list(pos[k])), want.hex(),
+                              repr(exc)[:200])
+                continue
+            if bytes(got) != want:
+                ok = False
+                col.violation("C05/huge-grid/wrong-bytes",
+                              dict(case, position=list(pos[k])), want.hex(),
+                              bytes(got).hex()[:40])
+        col.r["traces"] += 1
+        col.r["states"] += 1
+        col.r["transitions"] += len(order)
+        col.ev(1, 1, "huge-grid-ok" if ok else "huge-grid-bad")
+    finally:
+        sandbox.rm(d)
+
+
+def huge_orders(tier):
+    full = list(range(9))
+    orders = [full, full[::-1], [4, 0, 8, 2, 6, 1, 7, 3, 5], [0, 7, 8],
+              [8, 7, 0], [5, 6], [3]]
+    if tier == "thorough":
+        orders += [list(p) for p in itertools.permutations((0, 1, 7, 8))]
+    return orders
 
 
 def space(tier):
@@ -290,6 +403,15 @@ def run_unit(u):
     if u.get("kind") == "big":
         big_unit(col, u["configs"], FAMILY, pkg=True, spec=False)
         return col.result()
+    if u.get("kind") == "huge-grid":
+        logn, triple = u["grid"]
+        for strategy in ("in memory", "on disk"):
+            for order in huge_orders(u["tier"]):
+                _eval_huge_grid(col, logn, tuple(triple), strategy, order)
+        col.sample({"kind": "huge-grid", "log2_chunks_per_axis": logn,
+                    "triple": list(triple), "strategy": "in memory",
+                    "order": [0, 7, 8]})
+        return col.result()
     if u.get("kind") == "two-scale":
         for cfg in u["configs"]:
             two_scale_config(col, cfg, FAMILY)
@@ -314,6 +436,11 @@ def run_unit(u):
 
 def replay(case, family=FAMILY, pkg=True, spec=False):
     col = Collector()
+    if case.get("kind") == "huge-grid":
+        _eval_huge_grid(col, case["log2_chunks_per_axis"],
+                        tuple(case["triple"]), case["strategy"],
+                        case["order"])
+        return col.records()
     vio = se.Violations()
     cfg = {k: case[k] for k in ("size", "chunk", "triple", "index_enc",
                                 "data_enc", "strategy")}
